@@ -296,8 +296,14 @@ def read_v1(path):
 def read_v2(path, fmt):
     from rnapolis import parser_v2, tertiary_v2
 
+    from rnapolis.parser import is_cif
+
     with open(path) as f:
-        df = parser_v2.parse_pdb_atoms(f) if fmt == "PDB" else parser_v2.parse_cif_atoms(f)
+        # as the command-line tools do: the open handle is first asked what format it holds, then handed to the reader
+        sniffed = is_cif(f)
+        df = parser_v2.parse_cif_atoms(f) if sniffed else parser_v2.parse_pdb_atoms(f)
+    if sniffed != (fmt != "PDB"):
+        raise RuntimeError("is_cif() takes the %s text for %s" % (fmt, "mmCIF" if sniffed else "PDB"))
     st = tertiary_v2.Structure(df)
     res = []
     for r in st.residues:
